@@ -374,6 +374,33 @@ func init() {
 							}
 						}
 					}
+					// members without area (an empty polygon, a ring collapsed to a point or to two points, an outer ring cancelled
+					// by an identical hole) weigh nothing, wherever they stand
+					{
+						pc := mp[0][0][0]
+						cancel := orb.Polygon{cloneRing(mp[0][0]), cloneRing(mp[0][0])}
+						zero := []orb.Polygon{{}, {orb.Ring{pc, pc, pc, pc}}, {orb.Ring{pc, {pc[0] + 3, pc[1] + 1}, pc}}, cancel, {orb.Ring{}}}
+						baseC, baseA := planar.CentroidArea(mp)
+						for _, pos := range []int{0, len(mp) / 2, len(mp)} {
+							z := zero[r.Intn(len(zero))]
+							var with orb.MultiPolygon
+							with = append(with, cloneMP(mp[:pos])...)
+							with = append(with, clonePoly(z))
+							if r.Bool() {
+								with = append(with, clonePoly(zero[r.Intn(len(zero))]))
+							}
+							with = append(with, cloneMP(mp[pos:])...)
+							gc, ga := planar.CentroidArea(with)
+							c.Eval()
+							_, sc := extentOf(models[0][0])
+							if !relClose(ga, baseA, 1e-12, 0) || !(math.Abs(gc[0]-baseC[0]) <= 1e-9*(sc+sz) && math.Abs(gc[1]-baseC[1]) <= 1e-9*(sc+sz)) {
+								c.Fail("", "a member without area changes the area or centroid of a multi-polygon", map[string]interface{}{"multipolygon": sv(with), "position": pos, "got_centroid": sv(gc), "got_area": ga, "want_centroid": sv(baseC), "want_area": baseA})
+							}
+							if ca := planar.Area(orb.Collection{clonePoly(z), cloneMP(mp)}); !relClose(ca, baseA, 1e-12, 0) {
+								c.Fail("", "a member without area changes the area of a collection", map[string]interface{}{"member": sv(z), "got": ca, "want": baseA})
+							}
+						}
+					}
 					// distance-from for polygons / multi-polygons / collections with the index
 					for i := 0; i < 12; i++ {
 						rings := models[r.Intn(len(models))]
@@ -507,6 +534,27 @@ func init() {
 						if !(math.Abs(cc[0]-want[0]) <= 1e-9*100 && math.Abs(cc[1]-want[1]) <= 1e-9*100) {
 							key := "" // (was the finding fixed by b6f9610)
 							c.Fail(key, "centroid of a collection of lines is not the length-weighted mean", map[string]interface{}{"collection": sv(coll), "got": sv(cc), "want": sv(want)})
+						}
+					}
+					// lines whose vertices all coincide are still there for DistanceFrom: at the distance of their point
+					{
+						dp := orb.Point{float64(r.Range(-50, 50)), float64(r.Range(-50, 50))}
+						wantP := math.Hypot(dp[0]-dq[0], dp[1]-dq[1])
+						far := orb.LineString{{dq[0] + 500, dq[1] + 500}, {dq[0] + 600, dq[1] + 500}}
+						for name, g := range map[string]orb.Geometry{
+							"line string of two equal points":      orb.LineString{dp, dp},
+							"line string of three equal points":    orb.LineString{dp, dp, dp},
+							"ring of equal points":                 orb.Ring{dp, dp, dp, dp},
+							"multi line string (degenerate first)": orb.MultiLineString{{dp, dp}, far},
+							"multi line string (degenerate last)":  orb.MultiLineString{far, {dp, dp, dp}},
+							"collection":                           orb.Collection{far, orb.LineString{dp, dp}},
+							"polygon with a collapsed hole":        orb.Polygon{orb.Ring(append(append(orb.LineString{}, far...), far[0])), orb.Ring{dp, dp, dp, dp}},
+						} {
+							got := planar.DistanceFrom(g, dq)
+							c.Eval()
+							if !(math.Abs(got-wantP) <= 1e-9*(1+wantP)) {
+								c.Fail("", "DistanceFrom ignores a part whose vertices all coincide ("+name+")", map[string]interface{}{"value": sv(g), "point": sv(dq), "got": got, "want": wantP})
+							}
 						}
 					}
 					if l, want := planar.Length(mls), wl; !relClose(l, want, 1e-12, 0) {
